@@ -149,15 +149,16 @@ func humanItems(its []item) string {
 // values of the little evaluator
 
 type value struct {
-	kind   string // frag u64 i64 (signed reinterpretation of a uint64 argument) height hash struct buf const
-	items  []item
-	arg    int              // u64 / hash: argument index
-	arg2   int              // height: revision height index (arg = revision number index)
-	fields map[string]value // struct
-	slots  []item           // buf: one entry per byte; kind "" = unset; BE64 occupies 8 consecutive slots (first holds it)
-	n      int64            // const integer
-	hashed bool             // frag is a keccak pre-image
-	tname  string           // struct: its type name (for method calls)
+	kind    string // frag u64 i64 (signed reinterpretation of a uint64 argument) height hash struct buf const
+	items   []item
+	arg     int              // u64 / hash: argument index
+	arg2    int              // height: revision height index (arg = revision number index)
+	fields  map[string]value // struct
+	slots   []item           // buf: one entry per byte; kind "" = unset; BE64 occupies 8 consecutive slots (first holds it)
+	n       int64            // const integer
+	hashed  bool             // frag is a keccak pre-image
+	tname   string           // struct: its type name (for method calls)
+	builder bool             // frag held in a strings.Builder / bytes.Buffer variable
 }
 
 type pkg struct {
@@ -720,8 +721,8 @@ func (c *ctx) call(e *ast.CallExpr) value {
 				return c.heightString(e, x)
 			}
 		case "frag":
-			if se.Sel.Name == "Bytes" && len(e.Args) == 0 { // hash.Bytes()
-				return x
+			if (se.Sel.Name == "Bytes" || se.Sel.Name == "String") && len(e.Args) == 0 { // hash.Bytes(), builder.String()
+				return value{kind: "frag", items: x.items, hashed: x.hashed}
 			}
 		case "struct":
 			// a method of a struct of this package, inlined with the receiver
@@ -735,6 +736,67 @@ func (c *ctx) call(e *ast.CallExpr) value {
 	}
 	c.fail(e, "call expression")
 	return value{}
+}
+
+// copy(dst, constant text) into a buffer of constant length; returns the number of bytes copied
+func (c *ctx) doCopy(st ast.Node, call *ast.CallExpr, dest func(ast.Expr) (*ast.Ident, int64, int64)) int64 {
+	target, off, hi := dest(call.Args[0])
+	buf := c.env[target.Name]
+	src := c.eval(call.Args[1])
+	var bs []byte
+	for _, it := range c.asFrag(st, src) {
+		switch it.kind {
+		case "Lit":
+			bs = append(bs, it.lit...)
+		case "Sep":
+			bs = append(bs, '/')
+		default:
+			c.fail(st, "copy of a non-constant value into a buffer")
+		}
+	}
+	n := int64(0)
+	for k := 0; k < len(bs) && off+int64(k) < hi; k++ {
+		sl := buf.slots[int(off)+k]
+		if sl.kind == "used" || sl.kind == "BE64" {
+			c.fail(st, "copy over a number")
+		}
+		if bs[k] == '/' {
+			buf.slots[int(off)+k] = item{kind: "Sep"}
+		} else {
+			buf.slots[int(off)+k] = item{kind: "Lit", lit: []byte{bs[k]}}
+		}
+		n++
+	}
+	c.env[target.Name] = buf
+	return n
+}
+
+// destination of a write: buf, buf[lo:], buf[lo:hi], buf[:hi]
+func (c *ctx) dest(st ast.Node, d ast.Expr) (*ast.Ident, int64, int64) {
+	switch d := d.(type) {
+	case *ast.Ident:
+		if b, ok := c.env[d.Name]; ok && b.kind == "buf" {
+			return d, 0, int64(len(b.slots))
+		}
+	case *ast.SliceExpr:
+		if id, ok := d.X.(*ast.Ident); ok && d.Max == nil {
+			if b, ok := c.env[id.Name]; ok && b.kind == "buf" {
+				lo, hi := int64(0), int64(len(b.slots))
+				if d.Low != nil {
+					lo = c.evalInt(d.Low)
+				}
+				if d.High != nil {
+					hi = c.evalInt(d.High)
+				}
+				if lo < 0 || hi > int64(len(b.slots)) || lo > hi {
+					c.fail(st, "slice bounds out of range (run-time panic)")
+				}
+				return id, lo, hi
+			}
+		}
+	}
+	c.fail(st, "destination is not a byte buffer of constant length")
+	return nil, 0, 0
 }
 
 func (c *ctx) heightString(n ast.Node, h value) value {
@@ -786,6 +848,25 @@ func (c *ctx) pkgCall(e *ast.CallExpr, dir, path, fn string) value {
 			}
 		}
 		c.fail(e, "LeftPadBytes of something other than big.NewInt(const).Bytes()")
+	case "bytes.Join", "strings.Join":
+		if len(e.Args) == 2 {
+			if cl, ok := e.Args[0].(*ast.CompositeLit); ok {
+				sep := c.asFrag(e, c.eval(e.Args[1]))
+				var its []item
+				for i, el := range cl.Elts {
+					v := c.eval(el)
+					if v.hashed {
+						c.fail(e, "Join of a hash value")
+					}
+					if i > 0 {
+						its = append(its, sep...)
+					}
+					its = append(its, c.asFrag(e, v)...)
+				}
+				return value{kind: "frag", items: its}
+			}
+		}
+		c.fail(e, "Join of something other than a slice literal")
 	case "strconv.FormatUint":
 		// FormatUint(x, 10) = the %d of a uint64
 		if len(e.Args) == 2 && c.evalInt(e.Args[1]) == 10 {
@@ -996,11 +1077,18 @@ func (c *ctx) exec(fd *ast.FuncDecl, st ast.Stmt) (value, bool) {
 		if !ok {
 			c.fail(st, "assignment to a non-identifier")
 		}
+		if call, ok := st.Rhs[0].(*ast.CallExpr); ok {
+			if f, ok := call.Fun.(*ast.Ident); ok && f.Name == "copy" && len(call.Args) == 2 {
+				n := c.doCopy(st, call, func(d ast.Expr) (*ast.Ident, int64, int64) { return c.dest(st, d) })
+				c.env[id.Name] = value{kind: "const", n: n}
+				return value{}, false
+			}
+		}
 		c.env[id.Name] = c.eval(st.Rhs[0])
 		return value{}, false
 	case *ast.DeclStmt:
 		gd, ok := st.Decl.(*ast.GenDecl)
-		if !ok || gd.Tok != token.VAR {
+		if !ok || (gd.Tok != token.VAR && gd.Tok != token.CONST) {
 			c.fail(st, "declaration")
 		}
 		for _, sp := range gd.Specs {
@@ -1009,6 +1097,10 @@ func (c *ctx) exec(fd *ast.FuncDecl, st ast.Stmt) (value, bool) {
 				switch {
 				case i < len(vs.Values):
 					c.env[nm.Name] = c.eval(vs.Values[i])
+				case gd.Tok == token.CONST:
+					c.fail(st, "constant without a value (iota / implicit repetition in a local block)")
+				case vs.Type != nil && (typeString(vs.Type) == "strings.Builder" || typeString(vs.Type) == "bytes.Buffer"):
+					c.env[nm.Name] = value{kind: "frag", builder: true}
 				case vs.Type != nil:
 					// var x [n]byte / var x []byte / var x string: the zero value
 					if at, ok := vs.Type.(*ast.ArrayType); ok && typeString(at.Elt) == "byte" {
@@ -1094,33 +1186,43 @@ func (c *ctx) exec(fd *ast.FuncDecl, st ast.Stmt) (value, bool) {
 			}
 			// copy(buf[k:], constant text)
 			if id, ok := call.Fun.(*ast.Ident); ok && id.Name == "copy" && len(call.Args) == 2 {
-				target, off, hi := dest(call.Args[0])
-				buf := c.env[target.Name]
-				src := c.eval(call.Args[1])
-				var bs []byte
-				for _, it := range c.asFrag(st, src) {
-					switch it.kind {
-					case "Lit":
-						bs = append(bs, it.lit...)
-					case "Sep":
-						bs = append(bs, '/')
-					default:
-						c.fail(st, "copy of a non-constant value into a buffer")
-					}
-				}
-				for k := 0; k < len(bs) && off+int64(k) < hi; k++ {
-					sl := buf.slots[int(off)+k]
-					if sl.kind == "used" || sl.kind == "BE64" {
-						c.fail(st, "copy over a number")
-					}
-					if bs[k] == '/' {
-						buf.slots[int(off)+k] = item{kind: "Sep"}
-					} else {
-						buf.slots[int(off)+k] = item{kind: "Lit", lit: []byte{bs[k]}}
-					}
-				}
-				c.env[target.Name] = buf
+				c.doCopy(st, call, dest)
 				return value{}, false
+			}
+			// writes into a strings.Builder / bytes.Buffer variable
+			if se, ok := call.Fun.(*ast.SelectorExpr); ok {
+				if id, ok := se.X.(*ast.Ident); ok {
+					if b, ok := c.env[id.Name]; ok && b.kind == "frag" && b.builder {
+						switch se.Sel.Name {
+						case "Grow", "Reset":
+							if se.Sel.Name == "Reset" {
+								b.items = nil
+							}
+						case "WriteString", "Write":
+							if len(call.Args) != 1 {
+								c.fail(st, "builder write")
+							}
+							v := c.eval(call.Args[0])
+							if v.hashed {
+								c.fail(st, "hash written into a builder")
+							}
+							b.items = append(append([]item{}, b.items...), c.asFrag(st, v)...)
+						case "WriteByte", "WriteRune":
+							if len(call.Args) != 1 {
+								c.fail(st, "builder write")
+							}
+							n := c.evalInt(call.Args[0])
+							if n < 0 || n > 127 {
+								c.fail(st, "non-ASCII byte / rune written into a builder")
+							}
+							b.items = append(append([]item{}, b.items...), litItems([]byte{byte(n)})...)
+						default:
+							c.fail(st, "builder method %s", se.Sel.Name)
+						}
+						c.env[id.Name] = b
+						return value{}, false
+					}
+				}
 			}
 		}
 		c.fail(st, "expression statement")
@@ -1291,6 +1393,11 @@ func translateFunc(repo string, p *pkg, key string, fd *ast.FuncDecl) (*outFmt, 
 // the prefix expression handed to prefix.NewStore(..., <expr>) in function fn, evaluated in the environment built by the
 // statements of fn (local variables assigned before it); parameters of key types become arguments
 func translatePrefixStore(repo string, p *pkg, fn, outName, label string) *outFmt {
+	return translateCallArg(repo, p, fn, "NewStore", 2, 1, outName, label)
+}
+
+// the argument number argIx of the (last) call `x.<sel>(...)` with nargs arguments in function fn
+func translateCallArg(repo string, p *pkg, fn, sel string, nargs, argIx int, outName, label string) *outFmt {
 	src := fmt.Sprintf("%s: %s (%s)", p.dir, fn, label)
 	fd, ok := p.funcs[fn]
 	if !ok {
@@ -1313,14 +1420,14 @@ func translatePrefixStore(repo string, p *pkg, fn, outName, label string) *outFm
 	var found ast.Expr
 	ast.Inspect(fd.Body, func(n ast.Node) bool {
 		if call, ok := n.(*ast.CallExpr); ok {
-			if se, ok := call.Fun.(*ast.SelectorExpr); ok && se.Sel.Name == "NewStore" && len(call.Args) == 2 {
-				found = call.Args[1]
+			if se, ok := call.Fun.(*ast.SelectorExpr); ok && se.Sel.Name == sel && len(call.Args) == nargs {
+				found = call.Args[argIx]
 			}
 		}
 		return true
 	})
 	var its []item
-	msg := "no prefix.NewStore call"
+	msg := "no ." + sel + " call"
 	if found != nil {
 		msg = try(func() {
 			// local variables: every single-valued assignment / declaration of the body that evaluates (others are skipped)
@@ -1443,6 +1550,41 @@ func main() {
 	fmts = append(fmts, translatePrefixStore(*repo, ck, "Keeper.ClientStore", "clientkeeper_ClientStore_prefix", "local clientPrefix"))
 	fmts = append(fmts, translatePrefixStore(*repo, ck, "Keeper.RelayerStore", "clientkeeper_RelayerStore_prefix", "prefix.NewStore"))
 
+	// Names the Coq side refers to that belong to UNEXPORTED helpers: when a refactoring renames / removes the helper the
+	// same key is located by what it is used for.
+	has := func(name string) bool {
+		for _, f := range fmts {
+			if f.name == name {
+				return true
+			}
+		}
+		return false
+	}
+	get := func(name string) *outFmt {
+		for _, f := range fmts {
+			if f.name == name {
+				return f
+			}
+		}
+		return nil
+	}
+	if !has("bsc_keyRecentSinger") {
+		// the key bsc SetSigner(store, signer) writes
+		bp := loadPkg(*repo, "x/xibc/clients/light-clients/bsc/types")
+		fmts = append(fmts, translateCallArg(*repo, bp, "SetSigner", "Set", 2, 0, "bsc_keyRecentSinger", "the key written by store.Set"))
+	}
+	if !has("tm_bigEndianHeightBytes") {
+		// the sixteen height bytes of a tendermint iteration key = IterationKey without its literal prefix
+		if ik := get("tm_IterationKey"); ik != nil {
+			its := ik.items
+			for len(its) > 0 && (its[0].kind == "Lit" || its[0].kind == "Sep") {
+				its = its[1:]
+			}
+			fmts = append(fmts, &outFmt{name: "tm_bigEndianHeightBytes", arity: ik.arity, desc: ik.desc, items: its,
+				src: "x/xibc/clients/light-clients/tendermint/types: IterationKey without its literal prefix (the helper bigEndianHeightBytes is gone)", note: ik.note})
+		}
+	}
+
 	// validate.go
 	hp := loadPkg(*repo, "x/xibc/core/host")
 	type nconst struct {
@@ -1517,6 +1659,31 @@ func main() {
 		fmt.Fprintf(&b, "Definition %s_min : N := %d%%N.\nDefinition %s_max : N := %d%%N.\n", v.name, v.min, v.name, v.max)
 	}
 	fmt.Fprintf(&b, "(* host/validate.go IsValidID: %q *)\nDefinition host_IsValidID_class : bytes := %s.\n", printable(class), coqBytes(class))
+
+	// the poisoned families, for consumers that compute expected keys from the terms (a poisoned term renders garbage)
+	{
+		var pb bytes.Buffer
+		pb.WriteString("(* GENERATED by tools/gotocoq/keys -- do not edit.  Names of the definitions of Gen/KeysGen.v whose term is POISONED\n   (contains Raw 4095: an unsupported construct or a signed decimal of a uint64); empty when every builder translated. *)\n")
+		pb.WriteString("From Teleport Require Import Base.Bytes.\n\nDefinition poisoned_formats : list bytes :=\n  [")
+		first := true
+		for _, f := range fmts {
+			if f.note == "" {
+				continue
+			}
+			if !first {
+				pb.WriteString(";\n   ")
+			}
+			first = false
+			fmt.Fprintf(&pb, "%s (* %s *)", coqBytes([]byte(f.name)), f.name)
+		}
+		pb.WriteString("].\n")
+		pp := filepath.Join(*out, "KeysPoisonGen.v")
+		if oldp, err := os.ReadFile(pp); err != nil || !bytes.Equal(oldp, pb.Bytes()) {
+			if err := os.WriteFile(pp, pb.Bytes(), 0o644); err != nil {
+				die("%v", err)
+			}
+		}
+	}
 
 	path := filepath.Join(*out, "KeysGen.v")
 	old, err := os.ReadFile(path)
